@@ -346,8 +346,10 @@ def connectDestroyed (c : Conn) : Conn :=
   else removeChannel c
 
 def fireDelay (c : Conn) : Conn :=
-  -- makeWeakCallback: nothing happens when the object is gone
-  if c.alive then actLoop c .forceClose else c
+  if c.alive then actLoop c .forceClose
+  -- the object is gone: a weak callback does nothing; anything else calls into freed memory
+  else if forceCloseDelayHold = .weak then c
+  else emit { c with dead := true } (.uaf "delayed forceClose() on a destroyed connection")
 
 def runTask (c : Conn) (t : Task) : Conn :=
   if !c.alive && !t.strong then
